@@ -50,6 +50,7 @@ pub fn spec() -> Spec {
         counters,
         signature: no_sig,
         slice: false,
+        obs: false,
         also_check: true,
     }
 }
